@@ -51,7 +51,7 @@ fn grid_cases() -> Vec<[usize; 9]> {
 
 fn families(t: Tier) -> Vec<(&'static str, u64)> {
     let g = grid_cases().len() as u64;
-    vec![("grid", t.n(g / 7, g)), ("rand", t.n(6_000, 200_000)), ("nonfinite", t.n(1_000, 30_000)), ("large", t.n(800, 20_000))]
+    vec![("grid", t.n(g / 7, g)), ("rand", t.n(6_000, 1_000_000)), ("nonfinite", t.n(1_000, 150_000)), ("large", t.n(800, 100_000))]
 }
 fn floors(_t: Tier) -> Vec<(&'static str, u64)> {
     vec![
